@@ -38,7 +38,7 @@ def parse_iso(s):
 PROFILES = [
     "plain", "ties", "limits_type", "limits_seg", "limits_both", "scarce_depots", "no_depots_key",
     "empty_depots", "multi_cycle", "forbid", "multi_type", "coupled", "hitchhike", "nonmetric",
-    "two_days", "tiny", "tight", "bigshunt", "multi_cycle", "multi_cycle", "mc_overflow", "depot_contention",
+    "two_days", "tiny", "tight", "bigshunt", "multi_cycle", "multi_cycle", "mc_overflow", "depot_contention", "seat_rush",
 ]
 
 
@@ -56,9 +56,14 @@ def gen_instance(seed, index, profile=None, max_trips=10, allow_weird=False):
     contention = p == "depot_contention"
     if contention:
         p = "nonmetric"
+    # simultaneous trips whose SEATED demand needs several coupled vehicles while all passengers would fit
+    # into one, no formation limit, (almost) no real depot capacity: everything has to come from the overflow depot
+    rush = p == "seat_rush"
+    if rush:
+        p = rng.choice(["empty_depots", "scarce_depots"])
 
     ntypes = 1
-    if p == "multi_type" or contention or rng.random() < 0.25:
+    if (p == "multi_type" or contention or rng.random() < 0.25) and not rush:
         ntypes = rng.choice([2, 3])
     nloc = rng.choice([2, 3, 3, 4])
     if contention:
@@ -77,6 +82,9 @@ def gen_instance(seed, index, profile=None, max_trips=10, allow_weird=False):
         lim = -1
         if p in ("limits_type", "limits_both") or (p not in ("limits_seg", "coupled") and rng.random() < 0.3):
             lim = rng.choice([1, 2, 2, 3])
+        if rush:
+            seats, lim = rng.choice([20, 30]), -1
+            cap = 4 * seats + rng.choice([0, 10])
         types.append({"id": "T%d" % t, "cap": cap, "seats": seats, "limit": lim})
     I["types"] = types
 
@@ -102,6 +110,11 @@ def gen_instance(seed, index, profile=None, max_trips=10, allow_weird=False):
         unit_d = rng.choice([1000, 5000, 8000])
         dur = [[abs(pos[i] - pos[j]) * unit_t for j in range(nloc)] for i in range(nloc)]
         dist = [[abs(pos[i] - pos[j]) * unit_d for j in range(nloc)] for i in range(nloc)]
+    if nloc >= 2 and not contention and p not in ("tiny",) and rng.random() < 0.2:
+        # a station and its yard: two locations with a dead-head of zero seconds (and a few metres)
+        a, b = rng.sample(range(nloc), 2)
+        dur[a][b] = dur[b][a] = 0
+        dist[a][b] = dist[b][a] = rng.choice([0, 300])
     if contention:
         # location 0 hosts the small depot: close to everything in metres, slow to reach; location 1 hosts
         # the big depot: far away in metres, quick to reach
@@ -144,7 +157,7 @@ def gen_instance(seed, index, profile=None, max_trips=10, allow_weird=False):
             if allow_weird and rng.random() < 0.05:
                 dd = 0
             lim = -1
-            if p in ("limits_seg", "limits_both") or rng.random() < 0.2:
+            if (p in ("limits_seg", "limits_both") or rng.random() < 0.2) and not rush:
                 lim = rng.choice([1, 1, 2, 3])
             segs.append({"id": "r%ds%d" % (r, s), "orig": locs[cur], "dest": locs[nxt], "dur": d,
                          "dist": dd, "limit": lim})
@@ -166,6 +179,8 @@ def gen_instance(seed, index, profile=None, max_trips=10, allow_weird=False):
         if p == "multi_cycle":
             # many trips at the same time -> many vehicles with short tours
             t0 = rng.randrange(8 * 3600 // grid, 10 * 3600 // grid) * grid
+        if rush:
+            t0 = 8 * 3600 + rng.choice([0, 0, grid])
         if p in ("ties", "tiny") and trips and rng.random() < 0.7:
             # back-to-back with an existing trip: start exactly when another one ends / starts
             other = rng.choice(trips)
@@ -191,6 +206,9 @@ def gen_instance(seed, index, profile=None, max_trips=10, allow_weird=False):
             if p in ("coupled", "limits_type", "limits_seg", "limits_both", "hitchhike"):
                 want = rng.choice([1, 2, 2, 3, 4])
             mode = rng.random()
+            if rush:
+                want = rng.choice([2, 3, 4])
+                mode = 0.99
             if mode < 0.15:
                 pax, seated = 0, 0
             elif mode < 0.6:
@@ -199,6 +217,8 @@ def gen_instance(seed, index, profile=None, max_trips=10, allow_weird=False):
             else:
                 seated = rng.randint((want - 1) * tyrec["seats"] + 1, want * tyrec["seats"])
                 pax = rng.randint(seated, max(seated, want * tyrec["cap"]))
+                if rush:
+                    pax = rng.randint(seated, max(seated, tyrec["cap"]))     # one vehicle would do for the passengers
             trips.append({"id": "t%d" % tcount, "ty": r["ty"], "route": r["id"], "seg": sg["id"],
                           "depId": dep["id"], "orig": sg["orig"], "dest": sg["dest"], "dep": t,
                           "dur": sg["dur"], "dist": sg["dist"], "pax": pax, "seated": seated,
